@@ -1,6 +1,9 @@
 """C12 - tracks are independent; TrackSync and PLAY align them as documented.
 Theorems: props/C12.v (default channel of created tracks in any order of first use, TrackSync, frame and independence of
-the track-local arms, commutation of track-local blocks [partial]).  PLAY is outside the modelled fragment: no theorem,
+the track-local arms, commutation of track-local blocks [partial]; a track switch and back changes nothing on the track
+(C12_switch_and_back), every track is what its own blocks alone make of it (C12_program_tracks), hence any order-preserving
+interleaving (C12_permute_program) and the `grouped` rendering (C12_group_program, C12_group_program_create) build the same
+tracks; creating tracks beforehand changes nothing (C12_precreate, C12_create_named)).  PLAY is outside the modelled fragment: no theorem,
 the model answers UNSUPPORTED and only the oracle speaks about it.
 Correspondence: `compile_core` (model) vs `compile_lex` (implementation) on every multi-track source generated here.
 Oracle, on the implementation's bytes (laws between compilations; chunk bodies through the `container` kind):
@@ -18,7 +21,10 @@ import vlib, mmlgen, midinotes
 COQ_TARGET = "props/C12.v"
 THEOREMS = ["C12_default_channel", "C12_default_channel_any_order", "C12_track_token", "C12_settle_octave_once", "C12_track_token_plain",
             "C12_sync", "C12_frame", "C12_frame_indep", "C12_block_frame", "C12_block_indep", "C12_harmony_time_dead",
-            "C12_commute_partial", "C12_block_local", "C12_commute_blocks"]
+            "C12_commute_partial", "C12_block_local", "C12_commute_blocks",
+            "C12_switch_and_back", "C12_switch_and_back_pending", "C12_group_blocks",
+            "C12_program_tracks", "C12_permute_program", "C12_group_program", "C12_prog_wf_computed",
+            "C12_precreate", "C12_create_named", "C12_group_program_create"]
 DRIVERS = ["core"]
 RULE = ("2..8 blocks `TR(i) <block>`, i from 0,1,2,3,5,9,12,16,17,20, block = 1..4 items of the core-language generator (notes, rests, "
         "numbered notes, l/o/v/q/t and relative commands, octave-once, chords, tuplets, Sub, loops, comments), half of them closed by "
